@@ -42,6 +42,11 @@ def risk_tags(case):
     return tags
 
 
+def G_risk(case):
+    from ..gen.cases import risk
+    return risk(case)
+
+
 def run_case(case, out, backends, layouts_rng=None):
     from .. import exec as X
     from ..argsan import Guard
@@ -79,7 +84,7 @@ def run_case(case, out, backends, layouts_rng=None):
                 continue
             m = X.exc_mech(e)
             out.violation(
-                {"kind": "rejected-valid", "family": case.family, "risk": "+".join(tags), **m},
+                {"kind": "rejected-valid", "family": case.family, "risk": G_risk(case), **m},
                 {"case": case.to_json(), "backend": b, "layout": layout, "message": str(e)[:400]},
                 f"einx.{case.op}({case.desc()!r}, shapes={case.in_shapes}, {kw}) backend={b}: {type(e).__name__}: {str(e)[:160]}",
             )
@@ -89,7 +94,7 @@ def run_case(case, out, backends, layouts_rng=None):
             out.count("agree")
         else:
             out.violation(
-                {"kind": d[0], "family": case.family, "risk": "+".join(tags)},
+                {"kind": d[0], "family": case.family, "risk": G_risk(case)},
                 {"case": case.to_json(), "backend": b, "layout": layout, "detail": d[1]},
                 f"einx.{case.op}({case.desc()!r}, shapes={case.in_shapes}, {kw}) backend={b}: {d[1]}",
             )
